@@ -46,7 +46,7 @@ def canon(lines):
     out = []
     skip_s = False
     for l in lines:
-        if l.startswith("N ") or l == "X end" or l == "" or l.startswith("P "):
+        if l.startswith("N ") or l == "X end" or l == "" or l.startswith("P ") or l.startswith("L "):
             continue
         if l.startswith("E fail "):
             msg = l[7:]
